@@ -57,8 +57,11 @@ def absState (n : Nat) (w : Nat → Actor) : Tree.CState :=
            status := fun x => absStatus (w x).status, killed := fun x => (w x).sigVal },
     pc := fun x => absPc (w x) }
 
-theorem absPc_dead {a : Actor} (h : Dead a) : absPc a = .done ∧ absStatus a.status = .stopped := by
-  simp [absPc, h.1, h.2.1, absStatus]
+/-- `Dead` is exactly the tree model's finished exit: `pc = done`, `Stopped`, child set closed, no supervisor
+(the conclusion of `conc_exit_takes_subtree`, cf. `conc_stopped_closed`). -/
+theorem absPc_dead {a : Actor} (h : Dead a) :
+    absPc a = .done ∧ absStatus a.status = .stopped ∧ a.kids = none ∧ a.sup = none := by
+  simp [absPc, h.1, h.2.1, absStatus, h.2.2.2.2.2.1, h.2.2.2.2.2.2]
 
 /-- Reachable, with the status invariant. -/
 structure Ok (a : Actor) : Prop where
@@ -72,11 +75,12 @@ theorem Ok.run {a : Actor} (h : Ok a) (ops : List AOp) : Ok (a.run ops).1 :=
   ⟨reach_run ops a h.reach, SI_run ops a h.reach h.si⟩
 
 /-- **A killed actor finishes `cleanup`.** `t.killed x` (kill in the signal port): after any continuation with at
-least one poll of the actor's task — the environment doing anything in between — `pc x = done` and
-`status x = Stopped`. -/
+least one poll of the actor's task — the environment doing anything in between — `pc x = done`,
+`status x = Stopped`, the child set is closed and the supervisor link is gone. -/
 theorem exiting_finishes_kill (a : Actor) (h : Ok a) (hk : a.sigVal = true) (ops : List AOp)
     (hp : 1 ≤ pollCount a ops) :
-    absPc (a.run ops).1 = .done ∧ absStatus (a.run ops).1.status = .stopped :=
+    absPc (a.run ops).1 = .done ∧ absStatus (a.run ops).1.status = .stopped ∧
+    (a.run ops).1.kids = none ∧ (a.run ops).1.sup = none :=
   absPc_dead ((kill_run ops a (h.reach.alive_of_sig hk) hk).2.1 hp)
 
 /-- **An actor that published `Stopping` finishes `cleanup`.** It is `Dead` already or inside `post_stop`; one
@@ -84,7 +88,8 @@ effective poll (the script lets `post_stop` return, or a kill / abort intervenes
 theorem exiting_finishes_stopping (a : Actor) (h : Ok a)
     (hs : Tree.Status.stopping.toNat ≤ (absStatus a.status).toNat) (ops : List AOp)
     (hp : 1 ≤ effCount a ops) :
-    absPc (a.run ops).1 = .done ∧ absStatus (a.run ops).1.status = .stopped := by
+    absPc (a.run ops).1 = .done ∧ absStatus (a.run ops).1.status = .stopped ∧
+    (a.run ops).1.kids = none ∧ (a.run ops).1.sup = none := by
   rw [absStatus_toNat] at hs
   rcases stopping_dead_or_post_stop h.reach h.si hs with hd | ⟨hal, r, hr⟩
   · exact absPc_dead (dead_run ops a hd).1
